@@ -578,12 +578,14 @@ def install():
         def __contains__(self, k):
             return k in sys.modules
 
-    class NetrefSys:
-        modules = NetrefModules()
-
-        def __getattr__(self, n):
-            return real_getattr(sys, n)
-    netref.sys = NetrefSys()
+    def sys_shim(modules_view):
+        """a REAL module object standing in for `sys` (so `type(sys)` is still the module type in the code under test):
+        `.modules` is the logging view, every other name is forwarded (PEP 562)"""
+        shim = types.ModuleType("sys")
+        shim.modules = modules_view
+        shim.__dict__["__getattr__"] = lambda n: real_getattr(sys, n)
+        return shim
+    netref.sys = sys_shim(NetrefModules())
 
     def n_getattr(obj, name, *default):
         r = active()
@@ -633,12 +635,10 @@ def install():
         def __getitem__(self, k):
             return sys.modules[k]
 
-    class SysShim:
-        modules = ModulesView()
+        def get(self, k, *d):
+            return sys.modules.get(k, *d)
 
-        def __getattr__(self, n):
-            return real_getattr(sys, n)
-    vinegar.sys = SysShim()
+    vinegar.sys = sys_shim(ModulesView())
 
     def v_getattr(obj, name, *default):
         r = active()
